@@ -641,7 +641,16 @@ def run_driver(ctx, tline, lines, nproc=NPROC):
     chunks = [lines[i:i + size] for i in range(0, len(lines), size)]
 
     def one(ch):
-        out = ctx.lean.driver("Rewriter", [tline] + ch)
+        for attempt in range(8):
+            try:
+                out = ctx.lean.driver("Rewriter", [tline] + ch)
+                break
+            except Infra as ex:
+                # another property's `lake build` may be replacing a shared .olean at this very moment
+                if "does not exist" in str(ex) and attempt < 7:
+                    time.sleep(15)
+                    continue
+                raise
         if len(out) != len(ch) + 1 or not out[0].startswith("tables "):
             raise Infra(f"driver Rewriter returned {len(out)} lines for {len(ch) + 1}: {out[:1]}")
         return out[1:]
